@@ -5,7 +5,8 @@
    [wire_len ls <= 255] is RFC 1035's length limit.  The model functions are those of
    Model/NameText.v; the right-hand sides are the list-level definitions of Spec/NameTextS.v. *)
 From QV Require Import Base.ListX Model.NameWire Model.NameText Spec.NameWireS Spec.NameRepr Spec.NameTextS
-  Proofs.NameLabelsP Proofs.NameCmpP Proofs.NameTextP Proofs.NameMoreP.
+  Proofs.NameLabelsP Proofs.NameCmpP Proofs.NameTextP Proofs.NameMoreP Proofs.NameSuffixP Proofs.NameOracleP
+  Model.ZfStd.
 
 (* labels() / Index<usize> of a well-formed name yield its labels followed by the root label, without panic *)
 Theorem c16_labels : forall ls, wire_len ls <= 255 -> labels (name_of ls) = Ok (ls ++ [[]]).
@@ -112,8 +113,9 @@ Proof. exact text_roundtrip. Qed.
    [astep] is the abstract step: an octet is appended iff the label stays <= 63 and the wire form <= 255,
    a label is closed iff it is non-empty and there is room for the next length octet.  Every operation either
    succeeds with the builder representing the stepped state (limits [ast_ok] preserved) or returns an error
-   (the caller's builder value is untouched); it never panics.  finish_with_suffix is modelled and
-   differentially tested but has no theorem: hence _partial. *)
+   (the caller's builder value is untouched); it never panics.  (The name _partial dates from when
+   finish_with_suffix had no theorem; it now has one, c16_builder_finish_with_suffix below, and
+   c16_builder_step is this same statement under its final name.) *)
 Theorem c16_builder_partial : forall b st t, brepr b st -> ast_ok st ->
   match astep st t with
   | Some st' => exists b', feed1 b t = Ok b' /\ brepr b' st' /\ ast_ok st'
@@ -135,6 +137,48 @@ Theorem c16_builder_finish : forall b st, brepr b st -> ast_ok st ->
   (snd st = [] -> Forall (fun l : list N => 1 <= length l <= 63) (fst st) /\ wire_len (fst st) <= 255).
 Proof. exact builder_finish. Qed.
 
+Theorem c16_builder_step : forall b st t, brepr b st -> ast_ok st ->
+  match astep st t with
+  | Some st' => exists b', feed1 b t = Ok b' /\ brepr b' st' /\ ast_ok st'
+  | None => exists e, feed1 b t = Err e
+  end.
+Proof. exact feed1_step. Qed.
+
+(* finish_with_suffix (used by the zone-file parser for names relative to the origin): with finished
+   labels ds, current label cur and a well-formed suffix name: NullNonTerminal iff cur is empty; otherwise
+   NameTooLong iff ds ++ [cur] ++ suffix exceeds 255 octets on the wire; otherwise exactly the value
+   representing ds ++ [cur] ++ suffix (label offsets and wire form).  Never a panic: once the octets fit,
+   neither the `u8` additions on the label offsets nor the ArrayVec pushes can fail. *)
+Theorem c16_builder_finish_with_suffix : forall b (ds : list (list N)) (cur : list N) (suf : list (list N)),
+  brepr b (ds, cur) -> ast_ok (ds, cur) ->
+  Forall (fun l : list N => 1 <= length l <= 63) suf -> wire_len suf <= 255 ->
+  finish_with_suffix b (name_of suf) =
+    if is_nil cur then Err NullNonTerminal
+    else if wire_len (ds ++ cur :: suf) <=? 255 then Ok (name_of (ds ++ cur :: suf))
+    else Err NameTooLong.
+Proof. exact finish_with_suffix_spec. Qed.
+
+(* ---- the executable oracle IS the specification; non-ASCII text ------------------------------------------
+   [spec_of_text] (tokenize, split at the dots, RFC 1035 limits; Spec/NameTextS.v) is the function the check
+   evaluates on every generated text.  It returns Some ls exactly when the text is ASCII, denotes ls under the
+   declarative relation and ls is a well-formed name; and FromStr agrees with it on every ASCII text. *)
+Theorem c16_oracle_is_spec : forall s ls,
+  spec_of_text s = Some ls <-> is_ascii_text s /\ text_denotes s ls /\ wf_name ls.
+Proof. exact spec_of_text_iff. Qed.
+
+Theorem c16_text_is_oracle : forall s n, is_ascii_text s ->
+  (name_from_str s = Ok n <-> exists ls, spec_of_text s = Some ls /\ n = name_of ls).
+Proof. exact name_from_str_oracle. Qed.
+
+(* A Rust &str is valid UTF-8 ([utf8_valid], the model of str::from_utf8's acceptance used by C24).  If it
+   contains a non-ASCII character, FromStr returns an error (StrNotAscii, or an earlier error of the text
+   before it) — it never accepts and never panics, also when a backslash precedes the character (the escape
+   takes the first octet of its encoding, the continuation octet that follows is then refused).  Together
+   with c16_text_accepts: FromStr accepts EXACTLY the ASCII texts that denote a well-formed name. *)
+Theorem c16_text_rejects_non_ascii : forall s,
+  utf8_valid s = true -> ~ is_ascii_text s -> exists e, name_from_str s = Err e.
+Proof. exact name_from_str_rejects_non_ascii. Qed.
+
 (* Non-vacuity. *)
 Example c16_example :
   let ls := [[119; 46; 65]; [0; 92]]%N in
@@ -148,6 +192,22 @@ Proof.
   cbv zeta. split.
   - split; [|vm_compute; lia]. repeat constructor; cbn; try lia.
   - repeat split; try (vm_compute; reflexivity); try constructor; try (vm_compute; lia).
+Qed.
+
+Example c16_example_suffix :
+  (let b := mkB [0; 97]%N [0%N] 0 1%N in
+   brepr b ([], [97%N]) /\ ast_ok ([], [97%N]) /\
+   finish_with_suffix b (name_of [[98; 99]%N]) = Ok (name_of [[97]; [98; 99]]%N) /\
+   finish_with_suffix builder_new (name_of [[98; 99]%N]) = Err NullNonTerminal) /\
+  spec_of_text [97; 92; 46; 98; 46; 99; 46]%N = Some [[97; 46; 98]; [99]]%N /\
+  spec_of_text [97; 46; 46]%N = None /\
+  utf8_valid [92; 195; 169; 46]%N = true /\ name_from_str [92; 195; 169; 46]%N = Err StrNotAscii.
+Proof.
+  split; [|repeat split; vm_compute; reflexivity]. cbv zeta. split; [|split; [|split]].
+  - repeat split.
+  - repeat split; try constructor; vm_compute; lia.
+  - vm_compute. reflexivity.
+  - vm_compute. reflexivity.
 Qed.
 
 Print Assumptions c16_labels.
@@ -170,3 +230,8 @@ Print Assumptions c16_lowercase.
 Print Assumptions c16_lowercase_idempotent.
 Print Assumptions c16_is_wildcard.
 Print Assumptions c16_builder_push_slice.
+Print Assumptions c16_builder_step.
+Print Assumptions c16_builder_finish_with_suffix.
+Print Assumptions c16_oracle_is_spec.
+Print Assumptions c16_text_is_oracle.
+Print Assumptions c16_text_rejects_non_ascii.
